@@ -4,6 +4,8 @@ import (
 	"fmt"
 	"go/ast"
 	"go/token"
+	"os"
+	"path/filepath"
 	"sort"
 	"strings"
 )
@@ -85,9 +87,13 @@ type tr struct {
 	nloop   int
 }
 
+// genError is raised when a function leaves the translator's grammar; emitPreds skips that function (and, through
+// "call of untranslated function", everything that calls it) so that only the models that need it stop building.
+type genError struct{ msg string }
+
 func (t *tr) fail(n ast.Node, format string, a ...interface{}) {
 	pos := t.p.fset.Position(n.Pos())
-	die("%s: %s:%d: %s", t.fn, pos.Filename, pos.Line, fmt.Sprintf(format, a...))
+	panic(genError{fmt.Sprintf("%s: %s:%d: %s", t.fn, filepath.Base(pos.Filename), pos.Line, fmt.Sprintf(format, a...))})
 }
 
 var coqReserved = map[string]bool{"at": true, "in": true, "end": true, "type": true, "as": true, "fix": true, "fun": true,
@@ -979,7 +985,7 @@ func usesNil(body *ast.BlockStmt, name string) bool {
 func (p *pkg) function(key string, state bool) string {
 	d, ok := p.funcs[key]
 	if !ok {
-		die("function %s not found in /repo", key)
+		panic(genError{fmt.Sprintf("function %s not found in /repo", key)})
 	}
 	var loops []string
 	t := &tr{p: p, fn: key, env: map[string]*ty{}, optPar: map[string]bool{}, loops: &loops}
@@ -1135,10 +1141,24 @@ func (p *pkg) emitPreds() string {
 	var b strings.Builder
 	b.WriteString("(* Generated from function bodies of /repo by go/gen on every run. Do not edit.\n   Integers are Z; every operation whose Go type is uintN carries its `mod 2^N`;\n   `int`/`int64` arithmetic is unbounded (no theorem relies on signed overflow).\n   A *T parameter that the function never compares with nil is modelled as the record T. *)\nFrom Coq Require Import ZArith List Bool.\nRequire Import Gen.Consts Gen.Types Gen.CrcTable.\nImport ListNotations.\nOpen Scope Z_scope.\n\nDefinition odflt {A} (d : A) (o : option A) : A := match o with Some x => x | None => d end.\n\n(* bytes.Equal *)\nFixpoint bytes_eqb (a b : list Z) : bool :=\n  match a, b with\n  | [], [] => true\n  | x :: a', y :: b' => (x =? y) && bytes_eqb a' b'\n  | _, _ => false\n  end.\n\n")
 	for _, e := range predEntries {
-		b.WriteString(p.function(e.key, false))
-		if e.state {
-			b.WriteString(p.function(e.key, true))
-		}
+		func() {
+			defer func() {
+				if r := recover(); r != nil {
+					ge, ok := r.(genError)
+					if !ok {
+						panic(r)
+					}
+					fmt.Fprintf(os.Stderr, "gen: not translated: %s\n", ge.msg)
+					fmt.Fprintf(&b, "(* NOT TRANSLATED (the function left the translator's grammar): %s *)\n\n", strings.ReplaceAll(ge.msg, "*)", "* )"))
+				}
+			}()
+			var fb strings.Builder
+			fb.WriteString(p.function(e.key, false))
+			if e.state {
+				fb.WriteString(p.function(e.key, true))
+			}
+			b.WriteString(fb.String())
+		}()
 	}
 	return b.String()
 }
